@@ -118,7 +118,10 @@ SrvFrame(doTick, dt) ==
                  ELSE b.idle < MaxIdle /\ b' = [b EXCEPT !.idle = @ + 1]
     /\ dt > 0 => "timeout" \in OpKinds
     \* the scheduler's choice about a pending reset (see ResolveReset) is explored both ways
-    /\ \E vis \in (IF st.srv.tickMaybe /\ st.srv.running THEN BOOLEAN ELSE {TRUE}) :
+    \* (behaviours exported for replay take the branch the real apps have been observed to take: without
+    \* sync_related_entities the run condition is evaluated before `reset`, with it after)
+    /\ \E vis \in (IF st.srv.tickMaybe /\ st.srv.running
+                    THEN (IF Emit THEN {"relate" \notin OpKinds} ELSE BOOLEAN) ELSE {TRUE}) :
        \E r \in {FrameRV(st, doTick, dt, vis)} :
           /\ st' = r.st
           /\ g' = IF r.ran THEN GhostSnap(GhostMaps(g, st, r.st), r.st) ELSE g
